@@ -401,6 +401,55 @@ func Run(c *common.Ctx) error {
 			}
 		}
 	}
+	configWiring(c)
+	// a primary that is told to step down (litefs demote) gives its lease back at once and then sits out the demote delay:
+	// during that time it is not the primary any more, and a write through its proxy is not for the local application
+	{
+		ddir := dir + "-demote"
+		defer os.RemoveAll(ddir)
+		dclu := cluster.New(ddir, 2*time.Second)
+		dclu.Opts = func(name string, s *litefs.Store) { s.DemoteDelay = 1500 * time.Millisecond }
+		defer dclu.Close()
+		dp, err := dclu.Start("p", true)
+		if err != nil {
+			return err
+		}
+		if dclu.WaitPrimary(5*time.Second) == nil {
+			return fmt.Errorf("no primary")
+		}
+		hd := hist.NewOn(c, c.Rng.Fork(), hist.Config{PageSize: 512}, dp.Store, dp.Exits, "db", nil, 0, false)
+		if !commitOne(hd) {
+			return fmt.Errorf("demote: setup commit failed")
+		}
+		px, app, err := mkProxy(dp.Store, "db")
+		if err != nil {
+			return err
+		}
+		defer px.Close()
+		defer app.srv.Close()
+		dp.Store.Demote()
+		deadline := time.Now().Add(time.Second)
+		for dclu.Svc.Holder() != "" && time.Now().Before(deadline) {
+			time.Sleep(time.Millisecond)
+		}
+		if dclu.Svc.Holder() == "" { // the lease is back at the service: nobody is primary
+			time.Sleep(20 * time.Millisecond)
+			req, _ := http.NewRequest("POST", px.URL()+"/app", strings.NewReader(""))
+			resp, err := client.Do(req)
+			c.Evaluations++
+			c.Distinct("demoted-primary:write")
+			rep := map[string]any{"kind": "proxy-demoted-primary"}
+			if err != nil {
+				c.Violate("C19:demoted-primary:no-response", fmt.Sprintf("proxy did not answer: %v", err), rep)
+			} else {
+				_, _ = io.Copy(io.Discard, resp.Body)
+				resp.Body.Close()
+				if arr := app.take(); len(arr) > 0 {
+					c.Violate("C19:demoted-primary:write-forwarded", fmt.Sprintf("a node that was told to step down had given its lease back (the lease service names no holder); during its demote delay a POST through its proxy was forwarded to the local application (status %d)", resp.StatusCode), rep)
+				}
+			}
+		}
+	}
 	// the tracked database appears after the proxy has already served requests: a proxy started on a replica before
 	// the database exists behaves, once it exists, like one started afterwards
 	{
